@@ -1,4 +1,5 @@
 import I18n.Lemmas.CheckPluralsFinal
+import I18n.Lemmas.PluralFormsDeclText
 /-!
 # C07 — Plural-Forms diagnostics are truthful, and complete on the examined window
 
@@ -58,6 +59,25 @@ theorem reader_is_reference (v : List Char) :
       | some d => .ok d.n d.e d.ljunk d.rjunk
       | none => .syntaxError :=
   parsePluralForms_eq_declOf v
+
+/-- **The reference reading, as plain text** (no regex engine involved).  `v` contains the declaration `d` iff
+    `v = ljunk ++ q` where `q` STARTS with `nplurals=<ds>;<blanks>plural=<ex>[;]` (`OccursAt`: `ds` a positive numeral without
+    leading zero, blanks are spaces and tabs, `ex` the non-empty text up to the first `;` or the end) followed by `rjunk`, no
+    occurrence of that syntax starts earlier in `v`, `n` is the decimal value of `ds`, and `ex` parses to `e`. -/
+theorem decl_is_text (v : List Char) (d : Decl) :
+    declOf v = some d ↔ ∃ q ds ex, v = d.ljunk ++ q ∧ OccursAt q ds ex d.rjunk ∧ NoneBefore v d.ljunk.length ∧
+      d.n = decimal ds ∧ PluralParse.parse ex = .ok d.e :=
+  declOf_text v d
+
+/-- … and `v` contains no declaration iff the syntax occurs nowhere in it, or the expression text of its LEFTMOST occurrence
+    does not parse (a later well-formed occurrence does not help: the reading fixed in DESIGN §6 C07). -/
+theorem no_decl_is_text (v : List Char) :
+    ¬ HasDecl v ↔ (∀ p q, v = p ++ q → ∀ ds ex rj, ¬ OccursAt q ds ex rj) ∨
+      (∃ p q ds ex rj, v = p ++ q ∧ OccursAt q ds ex rj ∧ NoneBefore v p.length ∧ ∀ e, PluralParse.parse ex ≠ .ok e) := by
+  have hd : ¬ HasDecl v ↔ declOf v = none := by
+    unfold HasDecl
+    cases declOf v <;> simp
+  exact hd.trans (declOf_none_text v)
 
 /-! ## clause 1: syntax error iff no declaration; junk -/
 
@@ -310,6 +330,9 @@ theorem checkPlurals_nocrash_of_parses (inp : Input) (hreg : RegistryParses inp)
 
 section examples
 
+/-- the plain-text syntax: an occurrence at the head of a string -/
+example : OccursAt "nplurals=2; plural=n>1; y".toList "2".toList "n>1".toList " y".toList :=
+  (matchHere_iff _ _ _ _).1 (by decide +kernel)
 /-- the reference reading: leftmost match, groups, junk -/
 example : (declOf "x nplurals=2; plural=n>1; y".toList).map (fun d => (d.n, d.ljunk, d.rjunk)) = some (2, "x ".toList, " y".toList) := by rfl
 /-- leftmost: the first occurrence is broken (`(` does not parse) and the second is fine — no declaration -/
